@@ -7,6 +7,7 @@ replay), tied to the real cdc.Service + db.CDCStreamer + Bolt FIFO + HTTP sink b
 correspondence run.
 -/
 import RqModel.Model.Cdc
+import RqModel.Lemmas.Cdc7
 namespace C25
 open RqModel.Cdc RqModel.Fifo
 
@@ -52,5 +53,157 @@ the same highest index as the first and is suppressed by the FIFO -/
 theorem keep_index_not_enough_witness :
     deliveredB (run { batchSz := 1, keepIdx := true } ([.leader true, .entry ⟨77, false, [1, 1, 1]⟩] ++ heal)) (77, 1) = false := by
   decide
+
+/-! ### at least once, for entries that yield one event group -/
+
+theorem wf_heal (last : Nat) : wfOps last heal := by
+  simp [heal, wfOps]
+
+theorem flags_endpoint (s : St) : (stepOp s (.endpoint true)).up = true := by
+  show (pumpAll { s with up := true }).up = true
+  unfold pumpAll
+  rw [(same_pump _ _).up]
+
+theorem flags_leader (s : St) : (stepOp s (.leader true)).leader = true ∧ (stepOp s (.leader true)).up = s.up := by
+  show (pumpAll (stepCore s (.leader true))).leader = true ∧ (pumpAll (stepCore s (.leader true))).up = s.up
+  unfold pumpAll
+  rw [(same_pump _ _).leader, (same_pump _ _).up]
+  simp only [stepCore]
+  by_cases h : true = s.leader
+  · rw [if_pos h]; exact ⟨h.symm, rfl⟩
+  · rw [if_neg h]; simp
+
+/-- after the healing suffix nothing is left in the batcher, in the leader loop's hand, or
+emittable from the FIFO -/
+theorem healed_is_drained (s : St) (ht : Top s) :
+    let t := run s heal
+    Top t ∧ t.batcher = [] ∧ t.held = none ∧ t.fifo.nextEv = none ∧ t.log = s.log := by
+  have t1 := top_step s (.endpoint true) ht trivial
+  have t2 := top_step _ (.leader true) t1 trivial
+  have t3 := top_step _ .timer t2 trivial
+  have hup : (stepOp (stepOp s (.endpoint true)) (.leader true)).up = true := by
+    rw [(flags_leader _).2]; exact flags_endpoint s
+  have hld := (flags_leader (stepOp s (.endpoint true))).1
+  have hfl := flush_good _ _ t2.base t2.cov
+  have hsf := same_flush (stepOp (stepOp s (.endpoint true)) (.leader true))
+  have hdr := pumpAll_drains (flushBatcher (stepOp (stepOp s (.endpoint true)) (.leader true))) hfl.1.fifo
+    (by rw [hsf.leader]; exact hld) (by rw [hsf.up]; exact hup)
+  have hbat : (pumpAll (flushBatcher (stepOp (stepOp s (.endpoint true)) (.leader true)))).batcher = [] := by
+    unfold pumpAll; rw [pump_batcher]; exact flush_batcher_nil _
+  have hlog : (stepOp (stepOp (stepOp s (.endpoint true)) (.leader true)) .timer).log = s.log := by
+    rw [stepOp_log _ .timer t2, stepOp_log _ (.leader true) t1, stepOp_log _ (.endpoint true) ht]
+  exact ⟨t3, hbat, hdr.1, hdr.2, hlog⟩
+
+theorem deliveredB_of (s : St) (c : Change) (d : Nat × Batch) (g : Group)
+    (hd : d ∈ s.delivered) (hg : g ∈ d.2) (hi : g.idx = c.1) (hc : c ∈ g.chg) : deliveredB s c = true := by
+  unfold deliveredB
+  rw [List.any_eq_true]
+  refine ⟨d, hd, ?_⟩
+  rw [List.any_eq_true]
+  refine ⟨g, hg, ?_⟩
+  simp [hi, hc]
+
+/-- **At least once, with the entry's index** (the part of the full statement that holds).
+For EVERY batch size and EVERY history of applied log entries (strictly increasing indexes,
+each yielding at most one event group: single-statement requests, requests in a
+transaction, requests of which at most one statement touches a matching table), batcher
+timer firings, snapshots, leadership changes, endpoint outages, HWM broadcasts from other
+nodes, HWM ticks and restarts with raft replay, in any order and number: once the endpoint
+works, this node leads and the batcher's timer has fired, every change of every applied
+entry has been POSTed in a group labelled with its entry's index — or lies at or below a
+high-water mark announced by another node (which, by that node's own guarantee, delivered
+it). -/
+theorem at_least_once_partial (b : Nat) (ops : List Op) (hb : 0 < b) (hwf : wfOps 0 ops) :
+    ∀ c ∈ changesOf ops,
+      deliveredB (run { batchSz := b } (ops ++ heal)) c = true ∨
+      c.1 ≤ (run { batchSz := b } (ops ++ heal)).maxIn := by
+  intro c hc
+  have h0 := top_init b hb
+  have hw0 : wfOps (lastIdx ({ batchSz := b } : St).log) ops := by simpa [lastIdx] using hwf
+  have ht := top_run _ ops h0 hw0
+  obtain ⟨_, hlogE⟩ := log_of_run _ ops h0 hw0
+  rw [run_append]
+  obtain ⟨htF, hbat, hheld, hne, hlog⟩ := healed_is_drained _ ht
+  -- the entry the change belongs to
+  unfold changesOf at hc
+  rw [List.mem_flatMap] at hc
+  obtain ⟨op, hop, hcop⟩ := hc
+  cases op with
+  | entry e =>
+    simp only at hcop
+    have he : e ∈ (run { batchSz := b } ops).log := hlogE e hop
+    have hs := (ht.logOk e he).2.2
+    obtain ⟨g, hg, hgi, hcg, hc1⟩ := change_in_group (run (run { batchSz := b } ops) heal).keepIdx e hs c hcop
+    have hgG : g ∈ groups (run (run { batchSz := b } ops) heal) := by
+      rw [mem_groups]; exact ⟨e, by rw [hlog]; exact he, hg⟩
+    rcases done_of_drained _ htF hbat hheld hne g hgG with ⟨d, hd, hgd⟩ | h
+    · left; exact deliveredB_of _ c d g hd hgd (by rw [hgi, hc1]) hcg
+    · right; rw [hc1, ← hgi]; exact h
+  | timer => simp at hcop
+  | sync => simp at hcop
+  | leader _ => simp at hcop
+  | endpoint _ => simp at hcop
+  | hwm _ => simp at hcop
+  | tick => simp at hcop
+  | restart => simp at hcop
+
+/-- **Within one tenure the POSTs are in strictly increasing key order** (the key of a
+POST is the highest log index it carries). `pre` is any earlier history; `seg` any stretch
+of operations without a leadership change or restart — entries, timer firings, snapshots,
+outages, HWM broadcasts and ticks in any order. No exclusion is needed: this also holds
+for multi-statement entries. -/
+theorem nondecreasing_within_tenure (b : Nat) (pre seg : List Op)
+    (hseg : ∀ op ∈ seg, (∀ x, op ≠ .leader x) ∧ op ≠ .restart) :
+    ∃ D : List (Nat × Batch),
+      (run { batchSz := b } (pre ++ seg)).delivered = (run { batchSz := b } pre).delivered ++ D ∧
+      (D.map (·.1)).Pairwise (· < ·) := by
+  rw [run_append]
+  obtain ⟨D, h1, h2, _, _⟩ := run_deliveries (run { batchSz := b } pre) seg hseg
+  exact ⟨D, h1, h2⟩
+
+/-! ### what a HWM broadcast promises -/
+
+/-- THE FULL STATEMENT for the node's own broadcasts (false, see the witness): whenever this
+node has broadcast HWM `h`, every change at or below `h` has been delivered (here, or
+according to another node's announcement). Other nodes prune their queues on the strength
+of this promise, so at-least-once across leader changes rests on it. -/
+def broadcast_truthful_full : Prop :=
+  ∀ (b : Nat) (ops : List Op), 0 < b → wfOps 0 ops →
+    ∀ h ∈ (run { batchSz := b } ops).broadcasts, ∀ c ∈ changesOf ops, c.1 ≤ h →
+      deliveredB (run { batchSz := b } ops) c = true ∨ c.1 ≤ (run { batchSz := b } ops).maxIn
+
+/-- After a restart `NewService` sets the HWM to (first FIFO key - 1). With batch size 2 the
+entries 5 and 6 sit in ONE item keyed 6, so the restarted node believes 5 is done; as
+leader with the endpoint down its ticker broadcasts 5 although change 5.0 was never sent. -/
+theorem broadcast_truthful_witness : ¬ broadcast_truthful_full := by
+  intro h
+  have := h 2 [.entry ⟨5, false, [1]⟩, .entry ⟨6, false, [1]⟩, .restart, .endpoint false, .leader true, .tick]
+    (by decide) (by simp [wfOps, single, nonEmptyStmts]) 5 (by decide) (5, 0) (by decide) (by decide)
+  revert this
+  decide
+
+/-- the same with the ghost field spelled out: `maxHwmIn ops` is the highest HWM another
+node announced during the history -/
+theorem at_least_once_partial' (b : Nat) (ops : List Op) (hb : 0 < b) (hwf : wfOps 0 ops) :
+    ∀ c ∈ changesOf ops,
+      deliveredB (run { batchSz := b } (ops ++ heal)) c = true ∨ c.1 ≤ maxHwmIn ops := by
+  intro c hc
+  rcases at_least_once_partial b ops hb hwf c hc with h | h
+  · exact Or.inl h
+  · right
+    rw [run_maxIn] at h
+    have : maxHwmIn (ops ++ heal) = maxHwmIn ops := by
+      rw [maxHwmIn_append]; simp [heal, maxHwmIn]
+    simpa [this] using h
+
+/-- the exclusion is decidable and the hypotheses are satisfiable by a history with an
+outage, a step-down during the retry, a restart, a snapshot and a foreign HWM -/
+example : wfOps 0 [.leader true, .endpoint false, .entry ⟨5, false, [1]⟩, .entry ⟨6, true, [2, 0, 1]⟩,
+    .leader false, .sync, .restart, .hwm 3, .entry ⟨8, false, [0, 1]⟩] := by
+  simp [wfOps, single, nonEmptyStmts]
+
+example : (run { batchSz := 2 } ([.leader true, .endpoint false, .entry ⟨5, false, [1]⟩, .entry ⟨6, true, [2, 0, 1]⟩,
+    .leader false, .sync, .restart, .hwm 3, .entry ⟨8, false, [0, 1]⟩] ++ heal)).delivered =
+    [(6, [⟨5, [(5, 0)]⟩, ⟨6, [(6, 0), (6, 2)]⟩]), (8, [⟨8, [(8, 1)]⟩])] := by decide
 
 end C25
